@@ -501,6 +501,30 @@ pub fn run(tier: Tier) -> Report {
     ] {
         g.push((Sys { n: 1, rows }, 0));
     }
+    let total0 = {
+        // polytopes with rows but without columns (R^0): every row reads 0 <= b
+        let mut out = CaseOut::default();
+        for biases in [vec![-1.0], vec![1.0], vec![0.0], vec![1.0, -1.0], vec![0.0, 2.0]] {
+            out.add("systems", 1);
+            out.add("systems_nontrivial", 1);
+            out.add("evaluations", 3);
+            let m = Array2::<f64>::zeros((biases.len(), 0));
+            let p = Polytope::from_mats(m, Array1::from(biases.clone()));
+            let empty = biases.iter().any(|b| *b < 0.0);
+            let rec = json!({"n": 0, "biases": biases});
+            match catch(|| (p.status(), p.is_feasible(), p.solve_linprog(Array1::<f64>::zeros(0), false))) {
+                Err(m) => out.violate(Violation::new(format!("LP layer panicked on a polytope over R^0: {m}"), rec).tag("call", "status").tag("kind", "panic").tag("family", "zero_columns")),
+                Ok((st, fe, sl)) => {
+                    let st_inf = matches!(st, PolytopeStatus::Infeasible);
+                    let sl_inf = matches!(sl, PolytopeStatus::Infeasible);
+                    if st_inf != empty || fe == empty || sl_inf != empty {
+                        out.violate(Violation::new(format!("polytope over R^0 with biases {:?}: status infeasible={st_inf}, is_feasible={fe}, solve_linprog infeasible={sl_inf}; the set is {}", biases, if empty { "empty" } else { "the single point" }), rec).tag("call", "status").tag("kind", "verdict").tag("family", "zero_columns"));
+                    }
+                }
+            }
+        }
+        out
+    };
     let total = par_cases(&g, |i, (s, oi)| {
         let mut o = check_system(s, &objs[*oi]);
         // every 3rd system with a matrix of at least 2x2 once more with column-major storage
@@ -577,6 +601,7 @@ pub fn run(tier: Tier) -> Report {
         rep.samples.push(json!({"n": s.n, "rows_A_b": s.rows, "objectives": objs[s.n - 1]}));
     }
     rep.absorb(total);
+    rep.absorb(total0);
     let nt = rep.coverage.get("systems_nontrivial").and_then(|v| v.as_u64()).unwrap_or(0);
     rep.set("distinct_nontrivial", nt);
     rep.set("rule", "every ordered list of m rows over the coefficient and bias alphabets (row order not canonicalised: the solver is order-sensitive) x every objective in {0,+-1}^n; status, is_feasible, solve_linprog per objective and the Chebyshev programme are each one evaluation; a system is non-trivial if at least one row has a non-zero coefficient; distinct because the enumeration never repeats a row list");
